@@ -150,20 +150,31 @@ Definition stop_facts (o : outcome) (c : cancel) (b : backoff) (acc : stats) (r 
      else w_err r = WCanceled \/ w_err r = WStatus (r_status x)) /\
   (w_err r <> WCanceled ->
      triple (w_stats r) = add3 (triple acc) (if cancel_eqb c CBefore then (0, 0, 0) else spec_stats_of t o)) /\
-  (w_delays r = [] \/ exists d, w_delays r = [d] /\ cancel_eqb c CBefore = false /\ spec_after o <= d).
+  (w_delays r = [] \/ exists d, w_delays r = [d] /\ cancel_eqb c CBefore = false /\ spec_after o <= d) /\
+  (c = CNone -> spec_retryable cfg o = true -> ongoing cfg false b = false).
 
 Local Arguments stats_of : simpl never.
 Lemma has_stat_confirmed x : s_confirmed (parse_stats x) = has_stat_header (OResp x).
 Proof. reflexivity. Qed.
 
+Lemma is_2xx_not_retryable o : is_2xx o = true -> spec_retryable cfg o = false.
+Proof.
+  destruct o as [| |x]; unfold is_2xx, spec_retryable; try discriminate.
+  intros H. apply andb_true_iff in H. destruct H as [A B]. apply Z.leb_le in A. apply Z.leb_le in B.
+  apply orb_false_iff. split.
+  - apply andb_false_iff. left. apply Z.leb_gt. lia.
+  - apply andb_false_iff. right. apply Z.eqb_neq. lia.
+Qed.
+
 Lemma stop_final o c b acc e :
   cancel_eqb c CBefore = false -> e <> WExhausted -> e <> WCanceled -> e <> WNil ->
   (forall x, o = OResp x -> is_2xx o = false /\ e = WStatus (r_status x)) ->
+  (c = CNone -> spec_retryable cfg o = true -> ongoing cfg false b = false) ->
   stop_facts o c b acc (mkRes (stats_add acc (stats_of o)) e [mk_request t (b_n b)] []).
 Proof.
-  intros Hc H1 H2 H3 H4. unfold stop_facts. simpl. rewrite Hc.
+  intros Hc H1 H2 H3 H4 H5. unfold stop_facts. simpl. rewrite Hc.
   split; [reflexivity|]. split; [assumption|]. split; [discriminate|]. split; [congruence|].
-  split; [|split; [intros _; rewrite triple_add, triple_stats_of; reflexivity|left; reflexivity]].
+  split; [|split; [intros _; rewrite triple_add, triple_stats_of; reflexivity|split; [left; reflexivity|exact H5]]].
   intros _ x Hx. destruct (H4 x Hx) as [-> ->]. right. reflexivity.
 Qed.
 
@@ -180,10 +191,12 @@ Proof.
             no_data_written (stats_add acc (stats_of (OResp x)))) eqn:V; simpl.
   - split; [reflexivity|]. split; [discriminate|]. split; [discriminate|]. split; [discriminate|].
     split; [intros _ y _; rewrite I2; right; reflexivity|].
-    split; [intros _; rewrite triple_add, triple_stats_of; reflexivity|left; reflexivity].
+    split; [intros _; rewrite triple_add, triple_stats_of; reflexivity|].
+    split; [left; reflexivity|intros _ SR; rewrite (is_2xx_not_retryable _ I2) in SR; discriminate].
   - split; [reflexivity|]. split; [discriminate|]. split; [discriminate|].
     split; [|split; [intros _ y _; rewrite I2; left; reflexivity|
-             split; [intros _; rewrite triple_add, triple_stats_of; reflexivity|left; reflexivity]]].
+             split; [intros _; rewrite triple_add, triple_stats_of; reflexivity|
+             split; [left; reflexivity|intros _ SR; rewrite (is_2xx_not_retryable _ I2) in SR; discriminate]]]].
     intros _. split; [reflexivity|]. split; [assumption|].
     intros Ht. unfold stats_of in V |- *. rewrite Ht in V |- *. simpl in V.
     unfold has_stat_header.
@@ -191,13 +204,14 @@ Proof.
 Qed.
 
 Lemma stop_wait o c b acc d :
-  cancel_eqb c CBefore = false -> 0 <= d -> is_2xx o = false ->
+  cancel_eqb c CBefore = false -> cancel_eqb c CInWait = true -> 0 <= d -> is_2xx o = false ->
   stop_facts o c b acc (mkRes stats0 WCanceled [mk_request t (b_n b)] [d + spec_after o]).
 Proof.
-  intros Hc Hd I2. unfold stop_facts. simpl. rewrite Hc.
+  intros Hc Hw Hd I2. unfold stop_facts. simpl. rewrite Hc.
   split; [reflexivity|]. split; [discriminate|]. split; [discriminate|]. split; [discriminate|].
   split; [intros _ x _; rewrite I2; left; reflexivity|]. split; [congruence|].
-  right. eexists. split; [reflexivity|]. split; [reflexivity|lia].
+  split; [right; eexists; split; [reflexivity|]; split; [reflexivity|lia]|].
+  intros E. rewrite E in Hw. discriminate.
 Qed.
 
 Lemma stop_before o b acc :
@@ -205,7 +219,7 @@ Lemma stop_before o b acc :
 Proof.
   unfold stop_facts. simpl.
   split; [reflexivity|]. split; [discriminate|]. split; [reflexivity|]. split; [discriminate|].
-  split; [discriminate|]. split; [|left; reflexivity].
+  split; [discriminate|]. split; [|split; [left; reflexivity|discriminate]].
   intros _. rewrite triple_add, triple_stats_of. unfold spec_stats_of. destruct t; reflexivity.
 Qed.
 
@@ -235,9 +249,11 @@ Proof.
                   class o = ARetry (spec_after o) (match o with OResp x => KStatus (r_status x) | _ => KTransport end))).
   { destruct o as [| |x]; [right; split; reflexivity|left; reflexivity|].
     unfold class. rewrite I2. destruct (spec_retryable cfg (OResp x)); [right; split; reflexivity|left; reflexivity]. }
-  destruct Hcls as [-> | [SR ->]].
+  destruct Hcls as [Hcls | [SR Hcls]]; rewrite Hcls.
   { right. apply stop_final; try assumption; try (destruct o; discriminate).
-    intros x ->. split; [assumption|reflexivity]. }
+    - intros x ->. split; [assumption|reflexivity].
+    - intros _ SR. exfalso. destruct o as [| |x]; try discriminate.
+      unfold class in Hcls. rewrite I2, SR in Hcls. discriminate Hcls. }
   simpl orb.
   destruct (ongoing cfg (cancel_eqb c CAfter) b) eqn:On; simpl negb; cbv iota.
   - destruct (cancel_eqb c CInWait) eqn:CW.
@@ -246,7 +262,8 @@ Proof.
       { destruct c; try discriminate; try reflexivity; unfold ongoing in On; simpl in On; discriminate. }
       simpl in On. repeat split; auto.
   - right. apply stop_final; try assumption; try (destruct o; discriminate).
-    intros x ->. split; [assumption|reflexivity].
+    + intros x ->. split; [assumption|reflexivity].
+    + intros -> _. exact On.
 Qed.
 
 
@@ -452,13 +469,50 @@ Lemma loop_delays script b acc :
 Proof.
   apply (loop_ind (fun script b acc r => gaps_ok (w_delays r) (seen_of script r) = true)).
   - reflexivity.
-  - intros o c rest b0 acc0 r _ (Hr & _ & _ & _ & _ & _ & Hd).
+  - intros o c rest b0 acc0 r _ (Hr & _ & _ & _ & _ & _ & Hd & _).
     destruct Hd as [->|(d & -> & Hc & Hle)]; [reflexivity|].
     unfold seen_of, nreq. rewrite Hr, Hc. simpl. apply Z.leb_le in Hle. rewrite Hle. reflexivity.
   - intros o rest b0 acc0 r' _ _ _ _ d b' Hd _ _ _ IH.
     rewrite seen_push. change (w_delays (push [mk_request t (b_n b0)] [d + spec_after o] r')) with ((d + spec_after o) :: w_delays r').
     simpl. rewrite IH. replace (spec_after o <=? d + spec_after o) with true; [reflexivity|].
     symmetry. apply Z.leb_le. lia.
+Qed.
+
+
+(* G12: with no cancellation in the script the loop stops after a retryable answer only when the retries are used up
+   (or the script ends) *)
+Lemma loop_continues script b acc :
+  0 <= b_dmin b -> cancel_bound script = None ->
+  forall last tl, rev (seen_of script (loop script b acc false)) = last :: tl ->
+  spec_retryable cfg last = true ->
+  (c_max_retries cfg = 0 \/ b_n b + Z.of_nat (nreq (loop script b acc false)) <= c_max_retries cfg) ->
+  nreq (loop script b acc false) = length script.
+Proof.
+  apply (loop_ind (fun script b acc r => cancel_bound script = None ->
+    forall last tl, rev (seen_of script r) = last :: tl -> spec_retryable cfg last = true ->
+    (c_max_retries cfg = 0 \/ b_n b + Z.of_nat (nreq r) <= c_max_retries cfg) -> nreq r = length script)).
+  - intros b0 acc0 _ last tl H. discriminate H.
+  - intros o c rest b0 acc0 r _ (Hr & _ & _ & _ & _ & _ & _ & Hon) Hcb last tl Hrev SR Hbud.
+    assert (c = CNone) as -> by (destruct c; simpl in Hcb; try discriminate; reflexivity).
+    unfold seen_of, nreq in *. rewrite Hr in *. simpl in Hrev. inversion Hrev; subst.
+    specialize (Hon eq_refl SR). unfold ongoing in Hon. simpl in Hon, Hbud.
+    apply orb_false_iff in Hon. destruct Hon as [H0 H1]. apply Z.eqb_neq in H0. apply Z.ltb_ge in H1. lia.
+  - intros o rest b0 acc0 r' _ SRo _ _ d b' _ Hn Hm Er' IH Hcb last tl Hrev SR Hbud.
+    assert (Hcb' : cancel_bound rest = None) by (simpl in Hcb; destruct (cancel_bound rest); [discriminate|reflexivity]).
+    rewrite nreq_push in *. rewrite seen_push in Hrev. simpl length. f_equal.
+    destruct (seen_of rest r') as [|y l] eqn:E.
+    + assert (Hz : nreq r' = O).
+      { unfold seen_of in E. apply map_eq_nil in E.
+        destruct (nreq r') eqn:N; [reflexivity|]. exfalso.
+        assert (Hl : (nreq r' <= length rest)%nat) by (rewrite Er'; apply loop_nreq_le; assumption).
+        rewrite N in Hl. destruct rest; simpl in *; [lia|discriminate]. }
+      rewrite Hz. rewrite Er' in Hz.
+      destruct (loop_no_request rest b' (stats_add acc0 (stats_of o)) Hm Hz) as [[-> _]|(o2 & rest2 & -> & _)]; [reflexivity|].
+      simpl in Hcb'. discriminate.
+    + destruct (rev_cons_head o (y :: l)) as (x & tl' & E1 & E2); [discriminate|].
+      rewrite E2 in Hrev. inversion Hrev; subst.
+      apply (IH Hcb' last tl' E1 SR). destruct Hbud as [H0|H1]; [left; exact H0|right].
+      rewrite Nat2Z.inj_succ in H1. lia.
 Qed.
 
 End Client.
@@ -630,7 +684,8 @@ Proof.
      end &&
      (if werr_eqb (ob_err (obs_of m)) WCanceled then true
       else eq3 (ob_samples (obs_of m), ob_hist (obs_of m), ob_exem (obs_of m)) (sum3 (map (spec_stats_of t) seen))) &&
-     gaps_ok (ob_gaps (obs_of m)) seen)
+     gaps_ok (ob_gaps (obs_of m)) seen &&
+     must_continue cfg script n seen)
     by (destruct k; try discriminate; reflexivity).
   cbv zeta. change (ob_err (obs_of m)) with (w_err m). change (ob_gaps (obs_of m)) with (w_delays m).
   change (ob_samples (obs_of m), ob_hist (obs_of m), ob_exem (obs_of m)) with (triple (w_stats m)).
@@ -667,6 +722,27 @@ Proof.
     rewrite stats_accumulate_lemma; [apply eq3_refl|].
     intros E. rewrite E in C. discriminate.
   - apply retry_after_honoured_lemma.
+  - unfold must_continue.
+    destruct (cancel_bound script) eqn:CB; [reflexivity|].
+    destruct (rev seen) as [|last tl] eqn:Rv; [reflexivity|].
+    destruct (spec_retryable cfg last && ((c_max_retries cfg =? 0) || (Z.of_nat (length (w_reqs m)) <=? c_max_retries cfg))) eqn:G;
+      [|reflexivity].
+    apply andb_true_iff in G. destruct G as [SR G]. apply Nat.eqb_eq.
+    pose proof (loop_continues cfg t jit jit_nonneg script (bo_new cfg) stats0 bo_new_ok CB) as H.
+    rewrite <- m_loop in H. unfold seen_of, nreq in H. fold seen in H.
+    apply (H last tl Rv SR). simpl.
+    apply orb_true_iff in G. destruct G as [G|G]; [left; apply Z.eqb_eq; exact G|right; apply Z.leb_le; exact G].
+Qed.
+
+Lemma retries_while_alive_lemma :
+  cancel_bound script = None ->
+  forall last tl, rev seen = last :: tl -> spec_retryable cfg last = true ->
+  (c_max_retries cfg = 0 \/ Z.of_nat (length (w_reqs m)) <= c_max_retries cfg) ->
+  length (w_reqs m) = length script.
+Proof.
+  intros CB last tl Rv SR Hb.
+  pose proof (loop_continues cfg t jit jit_nonneg script (bo_new cfg) stats0 bo_new_ok CB) as H.
+  rewrite <- m_loop in H. unfold seen_of, nreq in H. fold seen in H. apply (H last tl Rv SR). simpl. exact Hb.
 Qed.
 
 End WriteTheorems.
